@@ -252,10 +252,10 @@ func evalC08(c *Ctx, cs *Case) {
 	}
 	// states produced by a real Mkdir of the same tree with each extension list, and of another tree
 	for ei := range ExtLists {
-		if cs.Kind != "exhaustive" && ei != int(cs.Seed)%len(ExtLists) {
+		if cs.Kind != "exhaustive" && ei != int(cs.Seed%uint64(len(ExtLists))) {
 			continue
 		}
-		if cs.Kind == "exhaustive" && c.Quick() && ei%3 != int(cs.Seed)%3 {
+		if cs.Kind == "exhaustive" && c.Quick() && ei%3 != int(cs.Seed%uint64(3)) {
 			continue
 		}
 		c08AfterMkdir(c, cs, f, merged, doc, fkey, ei)
